@@ -1162,6 +1162,46 @@ theorem finderDefault_sound (f : Facts) (text : List Nat) (textstart : Nat) (att
           · intro pos; simp [finderDefault, ha', hb, hsu', hfc]
           · exact finderFc_sound _ _ _ _ (h.fc ha' hb hsu' mem hfc)
 
+/-! ### `leadingPrefixFirstRunes` is complete -/
+
+theorem firstRunes_fold (c : Nat) : ∀ (l : List (List Nat)) (acc : List Nat),
+    (c ∈ acc ∨ ∃ rest, (c :: rest) ∈ l) →
+    c ∈ l.foldl (fun first p =>
+      match p with
+      | c :: _ => if first.contains c then first else first ++ [c]
+      | [] => first) acc := by
+  intro l
+  induction l with
+  | nil => intro acc h; rcases h with h | ⟨_, h⟩; exact h; simp at h
+  | cons p ps ih =>
+    intro acc h
+    simp only [List.foldl_cons]
+    apply ih
+    rcases h with h | ⟨rest, h⟩
+    · left
+      cases p with
+      | nil => exact h
+      | cons d _ =>
+        simp only
+        split
+        · exact h
+        · simp [h]
+    · simp only [List.mem_cons] at h
+      rcases h with h | h
+      · left
+        subst h
+        simp only
+        split
+        · rename_i hc; simpa using hc
+        · simp
+      · right; exact ⟨rest, h⟩
+
+theorem leadingPrefixFirstRunes_complete (prefixes : List (List Nat)) :
+    ∀ pre, pre ∈ prefixes → ∀ c rest, pre = c :: rest → c ∈ leadingPrefixFirstRunes prefixes := by
+  intro pre hpre c rest hc
+  subst hc
+  exact firstRunes_fold c prefixes [] (Or.inr ⟨rest, hpre⟩)
+
 /-! ### scaffolding for the non-vacuity examples of Props/C03 -/
 
 namespace Demo
